@@ -118,7 +118,8 @@ def run_suite(ctx, only_best=False):
                             [costs[i] for i in r] != [a.cost for a in r2]:
                         ctx.fail(f"C16/{name}/different-costs-than-agent-variant", f"{r} vs {tags(r2) if ok2 else r2} on {costs}", SUITE, meta)
                 # special_agents with both, only best, only worst
-                for nb, nw in ((n, len(costs) - n), (n, None), (None, n)):
+                # both counts are independent: also overlapping requests (n_best + n_worst > size, up to both = size)
+                for nb, nw in ((n, len(costs) - n), (n, None), (None, n), (n, len(costs)), (len(costs), n), (n, n), (n, min(len(costs), len(costs) - n + 1))):
                     ok, r = call(helpers.special_agents, agents, nb, nw, tt)
                     C.add({"op": "sel.special", "pop": pj, "dir": d, "nb": nb, "nw": nw},
                           [tags(r[0]), tags(r[1])] if ok else rerr(r), {**meta, "op": "special_agents", "nb": nb, "nw": nw})
